@@ -144,6 +144,22 @@ def r_rescan(ctx, P):
                 for j, tt in its:
                     if j in c and tt['args'] and _root_place(b, tt['args'][0], defs) == bp:
                         bad.append('%s is appended to at %s and walked at %s inside the same loop' % ('_%d%s' % (bp[0], ''.join(bp[1])), site(b, i), site(b, j)))
+        # the walk may be hidden in a parser handed in by the caller: `loop { buf.extend_from_slice(chunk); parser(&buf) }` re-parses
+        # everything accumulated so far on every chunk
+        for i, t in pushes:
+            bp = _root_place(b, t['args'][0], defs)
+            if bp is None:
+                continue
+            for c in comps:
+                if i not in c:
+                    continue
+                for j, tt in b.calls(r'ops::Fn(Mut|Once)?::call(_mut|_once)?$'):
+                    if j not in c or len(tt['args']) < 2:
+                        continue
+                    k, v = resolve_value(b, tt['args'][1], defs)
+                    ops = v['o'] if (k == 'rv' and v['k'] == 'agg') else []
+                    if any('l' in o and _root_place(b, o, defs) == bp for o in ops):
+                        bad.append('%s is appended to at %s and handed whole to a caller-supplied function at %s inside the same loop' % ('_%d%s' % (bp[0], ''.join(bp[1])), site(b, i), site(b, j)))
         ctx.check('%s:S19-4:no-rescan-of-accumulator:%s' % (P, p), 'R-quad', 'no loop of %s walks the container it is appending to (work stays linear in the number of items)' % p.split('::')[-1],
                   not bad, function=p, missing=sorted(set(bad)) or None)
     ctx.floor(P + ':S19-4:rescan-floor', 'append sites inside functions with loops', n, 40)
